@@ -226,3 +226,89 @@ theorem sweep_get (c : Cfg) (now : Nat) (s : St) (hi : Inv s) (k : Key) :
   · simp [h]
 
 end CJ.Registry
+
+namespace CJ.Registry
+
+/-! ### the timeout record of a key through single operations -/
+
+theorem track_timeouts_get (c : Cfg) (s : St) (k k' : Key) (tr now : Nat) :
+    (track c s k tr now).1.timeouts[k']? =
+      if k = k' ∧ c.enabled.contains tr = true ∧ s.decoys[k]? = none then some ⟨now, false⟩
+      else s.timeouts[k']? := by
+  unfold track
+  by_cases he : c.enabled.contains tr = true
+  · simp only [he, Bool.not_true, Bool.false_eq_true, if_false, true_and]
+    split
+    · rename_i r hr
+      simp [hr]
+    · rename_i hr
+      by_cases e : k = k'
+      · subst e; simp [hr]
+      · have : ¬ (k == k') = true := by simpa using e
+        simp [e, HashMap.getElem?_insert, this]
+  · have he' : ¬ tr ∈ c.enabled := by simpa using he
+    simp [he']
+
+theorem register_timeouts_get (c : Cfg) (s : St) (k k' : Key) (tr now : Nat) :
+    (register c s k tr now).1.timeouts[k']? =
+      if k = k' ∧ c.enabled.contains tr = true ∧ s.decoys[k]? = none then some ⟨now, false⟩
+      else s.timeouts[k']? := by
+  unfold register
+  by_cases he : c.enabled.contains tr = true
+  · simp only [he, Bool.not_true, Bool.false_eq_true, if_false, true_and]
+    split
+    · rename_i r hr
+      split <;> simp [hr]
+    · rename_i hr
+      by_cases e : k = k'
+      · subst e; simp [hr]
+      · have : ¬ (k == k') = true := by simpa using e
+        simp [e, HashMap.getElem?_insert, this]
+  · have he' : ¬ tr ∈ c.enabled := by simpa using he
+    simp [he']
+
+theorem markActive_timeouts_get (c : Cfg) (s : St) (k k' : Key) (tr : Nat) :
+    (markActive c s k tr).1.timeouts[k']? =
+      if k = k' ∧ c.enabled.contains tr = true then (s.timeouts[k]?).map (fun t => { t with used := true })
+      else s.timeouts[k']? := by
+  unfold markActive
+  by_cases he : c.enabled.contains tr = true
+  · simp only [he, Bool.not_true, Bool.false_eq_true, if_false, and_true]
+    split
+    · rename_i t ht
+      by_cases e : k = k'
+      · subst e; simp [ht]
+      · have : ¬ (k == k') = true := by simpa using e
+        simp [e, HashMap.getElem?_insert, this]
+    · rename_i ht
+      by_cases e : k = k'
+      · subst e; simp [ht]
+      · simp [e]
+  · have he' : ¬ tr ∈ c.enabled := by simpa using he
+    simp [he']
+
+theorem remove_timeouts_get (c : Cfg) (now : Nat) (s : St) (k k' : Key) :
+    (remove c now s k).1.timeouts[k']? = s.timeouts[k']? ∨ (remove c now s k).1.timeouts[k']? = none := by
+  unfold remove
+  split
+  · exact Or.inl rfl
+  · split
+    · split
+      · exact Or.inl rfl
+      · simp only [HashMap.getElem?_erase]
+        by_cases e : (k == k') = true <;> simp [e]
+    · exact Or.inl rfl
+
+theorem removeAllS_timeouts_get (c : Cfg) (now : Nat) (ks : List Key) (s : St) (k' : Key) :
+    (removeAllS c now ks s).timeouts[k']? = s.timeouts[k']? ∨ (removeAllS c now ks s).timeouts[k']? = none := by
+  induction ks generalizing s with
+  | nil => exact Or.inl rfl
+  | cons a ks ih =>
+    simp only [removeAllS, List.foldl_cons]
+    rcases ih (remove c now s a).1 with h | h
+    · simp only [removeAllS] at h
+      rw [h]; exact remove_timeouts_get c now s a k'
+    · simp only [removeAllS] at h
+      exact Or.inr h
+
+end CJ.Registry
